@@ -127,6 +127,17 @@ def _split_stmts(seg_text, base_off):
     return out
 
 
+def rscan_strip(text):
+    """blank out comments, keeping offsets"""
+    out = list(text)
+    for t in tokenize(text, keep_comments=True):
+        if t.kind == 'comment':
+            for i in range(t.start, t.end):
+                if out[i] != '\n':
+                    out[i] = ' '
+    return ''.join(out)
+
+
 def line_of(text, off):
     return text.count('\n', 0, off) + 1
 
@@ -171,13 +182,7 @@ def enumerate_obligations(unit, woven, items):
                         line_a=line_of(woven, base), line_b=line_of(woven, m.end(2)), item=True))
     # prelude lemmas: every `proof fn` with a body outside item regions counts as one obligation per ensures clause
     outside = re.sub(r'/\*ITEM<([^*]*)\*/(.*?)/\*>ITEM\*/', lambda mm: re.sub(r'[^\n]', ' ', mm.group(0)), woven, flags=re.S)
-    for m in re.finditer(r'\bproof\s+fn\s+(\w+)', outside):
-        # skip axioms / external_body
-        pre = outside[max(0, m.start() - 200):m.start()]
-        lastline = pre[pre.rfind('\n', 0, len(pre) - 1) + 1:] if '\n' in pre else pre
-        head = outside[max(0, m.start() - 80):m.start()]
-        if 'axiom' in head.split('\n')[-1] or 'external_body' in head.split('\n')[-2:][0] if len(head.split('\n')) > 1 else False:
-            continue
+    for m in re.finditer(r'\bproof\s+fn\s+(\w+)', rscan_strip(outside)):
         obs.append(dict(id='%s/lemma/%s' % (unit, m.group(1)), fn=m.group(1), kind='lemma', props=None,
                         line_a=line_of(woven, m.start()), line_b=line_of(woven, m.start()), item=False))
     return obs
